@@ -173,9 +173,16 @@ def refills(prog):
     return n, col.hits
 
 
+def unstorable(prog):
+    from .generic import storable_attributes
+    col = _Collector()
+    n = storable_attributes(prog, col)
+    return n, col.hits
+
+
 def run(prog):
     res = {}
-    for name, fn in (('dead-store', dead_stores), ('one-sided-tolerance', one_sided_tolerances), ('discarded-optional', discarded_optionals),
+    for name, fn in (('unstorable-attribute', unstorable), ('dead-store', dead_stores), ('one-sided-tolerance', one_sided_tolerances), ('discarded-optional', discarded_optionals),
                      ('loop / iteration', nonsense_loops), ('stale-alias', stale_aliases), ('refill-needs-empty', refills)):
         try:
             n, hits = fn(prog)
